@@ -1,7 +1,7 @@
 """Input streams shared by C13 and C14: exhaustive strings over the driving alphabet, grammar programs (with
 verbatim blocks, named periods, keywords) under layouts, mutation fuzzing of valid scripts, and the worker pool
 that runs (T) model-vs-implementation comparisons and (S) oracles over them."""
-import collections, itertools, multiprocessing, os, random, re, sys
+import collections, itertools, keyword, multiprocessing, os, random, re, sys
 
 import framework
 import gen_scripts as gs
@@ -104,8 +104,17 @@ def block_scripts():
         yield f'body{bi}:fence-comment', '```  # open\n' + '\n'.join(body) + '\n```  # close'
 
 
+# Names that LOOK special to Python but are ordinary identifiers for the parser: every soft keyword (reflected at
+# run time: `match`, `case`, `type`, ...; `_` is in the regular pool) and builtin / conventional names used as series.
+SOFT_NAMES = [k for k in getattr(keyword, 'softkwlist', ['match', 'case', 'type']) if k != '_'] + [
+    'print', 'len', 'int', 'id', 'sum', 'list', 'dict', 'set', 'str', 'object', 'input', 'range', 'float', 'bool',
+    'any', 'all', 'map', 'filter', 'zip', 'round', 'pow', 'hash', 'iter', 'next', 'open', 'vars', 'dir',
+    'np', 't', 'self', 'iteration', 'errors', 'kwargs', 'fsic', 'Model', 're', 'os']
+
 CONFIGS = [
     dict(),
+    dict(var_pool=SOFT_NAMES + ['Y', 'X']),
+    dict(var_pool=SOFT_NAMES, allow_calls=False, allow_params=False, lhs_offsets=True),
     dict(allow_verbatim=True),
     dict(allow_named_periods=True, span_labels=[2000, 2001, 2002, 'a', 'b']),
     dict(lhs_offsets=True, max_lag=12, max_lead=10),
